@@ -74,7 +74,10 @@ Definition qt_ok (c : qt_case) : bool :=
 
 (* C09: a publish whose write transaction fails. Acknowledged or handed to a subscriber implies stored (in the file as a
    process killed at that instant would find it); a success status means acknowledged; the neighbours are unaffected. *)
-Record fw_case := { fw_status : N; fw_acked : bool; fw_delivered : bool; fw_stored : bool; fw_others_stored : bool }.
+Record fw_case := { fw_status : N; fw_acked : bool; fw_delivered : bool; fw_stored : bool; fw_others_stored : bool;
+                    (* right after the refusal the hub still reports the previous update's id as its last event id *)
+                    fw_last_is_previous : bool }.
 Definition fw_ok (c : fw_case) : bool :=
   implb (fw_acked c) (fw_stored c) && implb (fw_delivered c) (fw_stored c) &&
-  implb (N.leb 200 (fw_status c) && N.ltb (fw_status c) 300) (fw_stored c) && fw_others_stored c.
+  implb (N.leb 200 (fw_status c) && N.ltb (fw_status c) 300) (fw_stored c) && fw_others_stored c &&
+  implb (negb (fw_stored c)) (fw_last_is_previous c).
